@@ -2,6 +2,8 @@ import Labella.Model.QP
 import Labella.Proofs.LayoutSep
 import Labella.Proofs.QPLemmas
 import Labella.Proofs.VpscLoops
+import Labella.Proofs.VpscCost
+import Labella.Proofs.VpscKKT
 import Mathlib.Algebra.Order.Field.Rat
 import Mathlib.Algebra.BigOperators.Group.List.Basic
 import Mathlib.Tactic.Ring
@@ -185,5 +187,123 @@ example : (Vpsc.solve 10 10 (Vpsc.init [(0, 1, 1), (0, 1, 1)] [(0, 1, 1), (1, 0,
     Vpsc.positions (Vpsc.solve 10 10 (Vpsc.init [(0, 1, 1), (0, 1, 1)] [(0, 1, 1), (1, 0, 1)])).1 = [-1 / 2, 1 / 2] ∧
     Vpsc.flagged (Vpsc.solve 10 10 (Vpsc.init [(0, 1, 1), (0, 1, 1)] [(0, 1, 1), (1, 0, 1)])).1 = [1] := by decide +kernel
 
+
+/-- the number `solve` returns is the weighted squared displacement of the positions it returns (cost of the QP instance at the reported positions) -/
+theorem vpsc_returned_cost_is_cost_of_positions (vars : List (Rat × Rat × Rat)) (cons : List (Nat × Nat × Rat))
+    (hidx : ∀ c ∈ cons, c.1 < vars.length ∧ c.2.1 < vars.length) (hs : ∀ v ∈ vars, v.2.2 ≠ 0) (fuel sfuel : Nat)
+    (herr : (Vpsc.solve fuel sfuel (Vpsc.init vars cons)).1.err = false) :
+    (Vpsc.solve fuel sfuel (Vpsc.init vars cons)).2 = QP.cost (qpInst vars cons) (Vpsc.positions (Vpsc.solve fuel sfuel (Vpsc.init vars cons)).1) := by
+  obtain ⟨_, _, _, i4, _, i6, _⟩ := Vpsc.init_inv vars cons hidx hs
+  obtain ⟨hI2, hcov⟩ := Vpsc.init_inv2 vars cons hidx hs
+  obtain ⟨h2, _, _, s5, s6⟩ := Vpsc.solve_spec2' fuel sfuel _ hI2 hcov herr
+  rw [s6, Vpsc.cost_eq_range _ h2.inv h2.nd h2.list]
+  generalize (Vpsc.solve fuel sfuel (Vpsc.init vars cons)).1 = st at *
+  have hvs : st.vs.size = vars.length := s5.vsize.trans i4
+  have hlen : (Vpsc.positions st).length = (qpInst vars cons).vars.length := by
+    simp [Vpsc.positions, qpInst, hvs]
+  have hvl : (qpInst vars cons).vars.length = vars.length := by simp [qpInst]
+  rw [QP.cost_eq _ _ hlen, QP.sum_map_eq_sum_range, List.length_range, hvl, hvs]
+  apply Finset.sum_congr rfl
+  intro i hi
+  have hi' : i < vars.length := Finset.mem_range.mp hi
+  have hw : (Vpsc.getV st i).w = vars[i].2.1 := (s5.vstat i).2.1.trans (i6 i hi').2.1
+  have hd : (Vpsc.getV st i).d = vars[i].1 := (s5.vstat i).1.trans (i6 i hi').1
+  rw [pos_positions st i (by rw [hvs]; exact hi')]
+  simp [QP.vw, QP.vd, qpInst, hi', hw, hd]
+  ring
+
+
+/-- the QP instance read off the state `solve` returns is the instance that was given to `init` (the problem data never change) -/
+theorem instOf_solve (vars : List (Rat × Rat × Rat)) (cons : List (Nat × Nat × Rat))
+    (hidx : ∀ c ∈ cons, c.1 < vars.length ∧ c.2.1 < vars.length) (hs : ∀ v ∈ vars, v.2.2 ≠ 0) (fuel sfuel : Nat)
+    (herr : (Vpsc.solve fuel sfuel (Vpsc.init vars cons)).1.err = false) :
+    Vpsc.instOf (Vpsc.solve fuel sfuel (Vpsc.init vars cons)).1 = qpInst vars cons := by
+  obtain ⟨_, _, _, i4, i5, i6, i7⟩ := Vpsc.init_inv vars cons hidx hs
+  obtain ⟨hI2, hcov⟩ := Vpsc.init_inv2 vars cons hidx hs
+  obtain ⟨_, _, _, s5, _⟩ := Vpsc.solve_spec2' fuel sfuel _ hI2 hcov herr
+  generalize (Vpsc.solve fuel sfuel (Vpsc.init vars cons)).1 = st at *
+  have hvs : st.vs.size = vars.length := s5.vsize.trans i4
+  have hcs : st.cs.size = cons.length := s5.csize.trans i5
+  unfold Vpsc.instOf qpInst
+  congr 1
+  · apply List.ext_getElem
+    · simp [hvs]
+    · intro i h1 h2
+      have hi : i < vars.length := by simpa [hvs] using h1
+      obtain ⟨a1, a2, a3⟩ := i6 i hi
+      obtain ⟨b1, b2, b3, _⟩ := s5.vstat i
+      simp [b1.trans a1, b2.trans a2, b3.trans a3]
+  · apply List.ext_getElem
+    · simp [hcs]
+    · intro i h1 h2
+      have hi : i < cons.length := by simpa [hcs] using h1
+      obtain ⟨a1, a2, a3⟩ := i7 i hi
+      obtain ⟨b1, b2, b3⟩ := s5.cstat i
+      simp [b1.trans a1, b2.trans a2, b3.trans a3]
+
+/-- **C05 (optimality half) for the transliterated solver, conditional on the solver's own exit test.**  If, in the state `solve`
+returns, no active constraint carries a negative Lagrange multiplier (so `Blocks.split` has nothing left to split), then the
+returned positions minimise the weighted squared displacement among ALL placements that satisfy every constraint — for any
+constraint graph.  (Known finding F1 is exactly a run that ends with a negative multiplier pending.) -/
+theorem vpsc_solve_optimal (vars : List (Rat × Rat × Rat)) (cons : List (Nat × Nat × Rat))
+    (hidx : ∀ c ∈ cons, c.1 < vars.length ∧ c.2.1 < vars.length) (hs : ∀ v ∈ vars, v.2.2 ≠ 0)
+    (hw : ∀ v ∈ vars, 0 < v.2.1) (fuel sfuel : Nat)
+    (herr : (Vpsc.solve fuel sfuel (Vpsc.init vars cons)).1.err = false)
+    (herr2 : (Vpsc.lmState (Vpsc.solve fuel sfuel (Vpsc.init vars cons)).1).err = false)
+    (hpos : ∀ l ∈ Vpsc.multipliers (Vpsc.solve fuel sfuel (Vpsc.init vars cons)).1, 0 ≤ l)
+    (z : List Rat) (hz : z.length = vars.length) (hfeas : Feasible (qpInst vars cons) z) :
+    cost (qpInst vars cons) (Vpsc.positions (Vpsc.solve fuel sfuel (Vpsc.init vars cons)).1) ≤ cost (qpInst vars cons) z := by
+  have hI := instOf_solve vars cons hidx hs fuel sfuel herr
+  obtain ⟨_, _, _, i4, _, i6, _⟩ := Vpsc.init_inv vars cons hidx hs
+  obtain ⟨hI2, hcov⟩ := Vpsc.init_inv2 vars cons hidx hs
+  obtain ⟨h2, _, _, s5, _⟩ := Vpsc.solve_spec2' fuel sfuel _ hI2 hcov herr
+  generalize (Vpsc.solve fuel sfuel (Vpsc.init vars cons)).1 = st at *
+  have hvs : st.vs.size = vars.length := s5.vsize.trans i4
+  have hw' : ∀ v, v < st.vs.size → 0 < (Vpsc.getV st v).w := by
+    intro v hv
+    have hv' : v < vars.length := by rw [← hvs]; exact hv
+    rw [(s5.vstat v).2.1, (i6 v hv').2.1]
+    exact hw _ (List.getElem_mem _)
+  have := Vpsc.vpsc_optimal_of_nonneg_multipliers st h2.inv h2.nd h2.adj h2.list h2.stats hw' herr2 hpos z
+    (by rw [hvs]; exact hz) (by rw [hI]; exact hfeas)
+  rw [hI] at this
+  exact this
+
+/-- the same with the solver's tolerance: if every multiplier is `≥ LAGRANGIAN_TOLERANCE` (the test `Blocks.split` applies), the
+returned positions are optimal up to `−LAGRANGIAN_TOLERANCE` times the total slack the competitor leaves on the constraints whose
+multiplier is negative -/
+theorem vpsc_solve_near_optimal (vars : List (Rat × Rat × Rat)) (cons : List (Nat × Nat × Rat))
+    (hidx : ∀ c ∈ cons, c.1 < vars.length ∧ c.2.1 < vars.length) (hs : ∀ v ∈ vars, v.2.2 ≠ 0)
+    (hw : ∀ v ∈ vars, 0 < v.2.1) (fuel sfuel : Nat)
+    (herr : (Vpsc.solve fuel sfuel (Vpsc.init vars cons)).1.err = false)
+    (herr2 : (Vpsc.lmState (Vpsc.solve fuel sfuel (Vpsc.init vars cons)).1).err = false)
+    (htol : ∀ l ∈ Vpsc.multipliers (Vpsc.solve fuel sfuel (Vpsc.init vars cons)).1, Gen.lagrangianTolerance ≤ l)
+    (z : List Rat) (hz : z.length = vars.length) (hfeas : Feasible (qpInst vars cons) z) :
+    cost (qpInst vars cons) (Vpsc.positions (Vpsc.solve fuel sfuel (Vpsc.init vars cons)).1) ≤
+      cost (qpInst vars cons) z + (-Gen.lagrangianTolerance) *
+        (((qpInst vars cons).cons.zip (Vpsc.multipliers (Vpsc.solve fuel sfuel (Vpsc.init vars cons)).1)).map
+          fun p => if p.2 < 0 then slack (qpInst vars cons) z p.1 else 0).sum := by
+  have hI := instOf_solve vars cons hidx hs fuel sfuel herr
+  obtain ⟨_, _, _, i4, _, i6, _⟩ := Vpsc.init_inv vars cons hidx hs
+  obtain ⟨hI2, hcov⟩ := Vpsc.init_inv2 vars cons hidx hs
+  obtain ⟨h2, _, _, s5, _⟩ := Vpsc.solve_spec2' fuel sfuel _ hI2 hcov herr
+  generalize (Vpsc.solve fuel sfuel (Vpsc.init vars cons)).1 = st at *
+  have hvs : st.vs.size = vars.length := s5.vsize.trans i4
+  have hw' : ∀ v, v < st.vs.size → 0 < (Vpsc.getV st v).w := by
+    intro v hv
+    have hv' : v < vars.length := by rw [← hvs]; exact hv
+    rw [(s5.vstat v).2.1, (i6 v hv').2.1]
+    exact hw _ (List.getElem_mem _)
+  have := Vpsc.vpsc_near_optimal_of_tolerance st h2.inv h2.nd h2.adj h2.list h2.stats hw' herr2 htol z
+    (by rw [hvs]; exact hz) (by rw [hI]; exact hfeas)
+  rw [hI] at this
+  exact this
+
+/-- non-vacuity of `vpsc_solve_optimal`: three variables wanted at 0, 0, 3 with `x₁ ≥ x₀ + 2`, `x₂ ≥ x₁ + 2`: no fuel runs out, the
+multipliers are nonnegative (2, 2·… ), so the returned placement is THE optimum -/
+example : (Vpsc.solve 10 20 (Vpsc.init [(0, 1, 1), (0, 1, 1), (3, 1, 1)] [(0, 1, 2), (1, 2, 2)])).1.err = false ∧
+    (Vpsc.lmState (Vpsc.solve 10 20 (Vpsc.init [(0, 1, 1), (0, 1, 1), (3, 1, 1)] [(0, 1, 2), (1, 2, 2)])).1).err = false ∧
+    (∀ l ∈ Vpsc.multipliers (Vpsc.solve 10 20 (Vpsc.init [(0, 1, 1), (0, 1, 1), (3, 1, 1)] [(0, 1, 2), (1, 2, 2)])).1, 0 ≤ l) := by
+  decide +kernel
 
 end Labella.C05
